@@ -146,6 +146,52 @@ func (c *Ctx) MPFrom(fn *ssa.Function, from ssa.Instruction, detail string, targ
 	}
 }
 
+// Edge is a control-flow edge.
+type Edge struct{ From, To *ssa.BasicBlock }
+
+// MPEdge: every path from entry that takes the given control-flow edge passes one of the gates
+// (used for "the value flowing into a phi along this edge").
+func (c *Ctx) MPEdge(fn *ssa.Function, detail string, edges []Edge, floor int, gates ...Gate) {
+	if fn == nil || !c.Floor(fn, detail+" edges", len(edges), floor) {
+		return
+	}
+	var names []string
+	for _, g := range gates {
+		names = append(names, g.Name)
+	}
+	cut, n := c.buildCut(fn, gates)
+	res := reach(fn, nil, cut)
+	for i, e := range edges {
+		term := e.From.Instrs[len(e.From.Instrs)-1]
+		taken := res.reached[term]
+		if taken {
+			if _, isIf := term.(*ssa.If); isIf {
+				del := cut.Edges[e.From]
+				for si, s := range e.From.Succs {
+					if s == e.To && si < 2 && del[si] {
+						taken = false
+					}
+				}
+				// both successors may be e.To; then any undeleted one counts
+				for si, s := range e.From.Succs {
+					if s == e.To && si < 2 && !del[si] && res.reached[term] {
+						taken = true
+					}
+				}
+			}
+		}
+		d := detail
+		if len(edges) > 1 {
+			d = fmt.Sprintf("%s/%d", detail, i)
+		}
+		w := fmt.Sprintf("%d gate occurrence(s); gate: %s", n, strings.Join(names, " OR "))
+		if taken {
+			w = "edge can be taken without a passing edge: " + c.path(res, term) + "; " + w
+		}
+		c.Report(fn, d, c.InstrPos(term), !taken, w)
+	}
+}
+
 // ---------------------------------------------------------------------------------------------
 
 type knownFinding struct {
